@@ -5,7 +5,7 @@
    CNAME/other-data exclusivity.  Proofs: Proofs/Txn*.v. *)
 From DV Require Import Base.Prelude Model.NameM Model.TxnM.
 From DV Require Import Proofs.NameValid Proofs.TxnName Proofs.TxnStore Proofs.TxnLow Proofs.TxnSim Proofs.TxnThm
-                       Proofs.TxnIrrel Proofs.TxnSpec.
+                       Proofs.TxnIrrel Proofs.TxnSpec Proofs.TxnInv Proofs.TxnItems.
 Open Scope Z_scope.
 
 (* Any history of transactions - every operation and argument form, manual commit/rollback or with-block,
@@ -209,6 +209,36 @@ Theorem serial_zero_skip_corner_refuted :
 Proof. exact serial_corner_refuted. Qed.
 Print Assumptions serial_zero_skip_corner_refuted.
 
+(* update_serial as a public call on the reference store (and, by `refines`, on the zone): the SOA then
+   holds the RFC 1982 sum, 1 instead of 0, TTL and other fields unchanged *)
+Theorem update_serial_stores_the_rfc1982_sum :
+  forall c s body serial items ttl value,
+  wfc c -> swf (rs_entries s) ->
+  r_get c s NameM.empty tSOA 0 = Ok (Some (mkRds cIN tSOA 0 ttl ((body, serial) :: items))) ->
+  0 <= value <= 2147483647 ->
+  exists s',
+    hl_update_serial (rstore c) c value true None (mkTxn s false false) = Ok (mkTxn s' false false) /\
+    r_get c s' NameM.empty tSOA 0 =
+      Ok (Some (mkRds cIN tSOA 0 ttl [(body, bump ((serial mod 4294967296 + value) mod 4294967296))])).
+Proof. exact update_serial_effect. Qed.
+Print Assumptions update_serial_stores_the_rfc1982_sum.
+
+(* no Python-level exception escapes: the partial operations of the model (`del self.nodes[name]` in
+   delete_rdataset - the KeyError of the defect fixed by ea85fed -, the assertion in _add) never fail *)
+Theorem no_python_exception_escapes :
+  forall c h z l, wfc c -> Forall spec_valid h -> Forall spec_named h -> RP c z l ->
+  Forall (fun x => Forall not_internal (fst x)) (impl_hist c h z).
+Proof. exact impl_never_internal. Qed.
+Print Assumptions no_python_exception_escapes.
+
+(* singleton rule as an invariant: whatever is added, merged or deleted, every rdataset found in a reachable
+   zone is duplicate-free and holds at most one record if its type is SOA, CNAME, DNAME, NSEC or NXT *)
+Theorem singleton_and_no_duplicates_invariant :
+  forall c h z l, wfc c -> Forall spec_valid h -> Forall spec_items_wf h -> RP c z l -> ent_items_wf l ->
+  Forall (fun x => forall n nd, Valid n -> zone_get_node c (snd x) n = Some nd -> Forall items_wf nd) (impl_hist c h z).
+Proof. exact singleton_invariant. Qed.
+Print Assumptions singleton_and_no_duplicates_invariant.
+
 (* ---------------------------------------------------------------- non-vacuity *)
 Definition ex_origin : name := [[101; 120]; []].                    (* ex. *)
 Definition ex_cfg : cfg := mkCfg 0 true ex_origin.
@@ -260,3 +290,19 @@ Qed.
 
 Example ex_same_zone : same_zone ex_cfg (mkCfg 2 false ex_origin) [] [].
 Proof. exists [], []. split; [apply RP_empty|split; [apply RP_empty|constructor]]. Qed.
+
+Example ex_named : Forall spec_named ex_hist.
+Proof. repeat constructor. Qed.
+
+Example ex_items_wf : Forall spec_items_wf ex_hist /\ ent_items_wf [].
+Proof.
+  split; [|constructor]. unfold ex_hist, spec_items_wf. repeat constructor; cbn; try lia; try (intros []).
+Qed.
+
+(* hypotheses of the reference-store laws *)
+Example ex_law_hyps :
+  swf [] /\ canon ex_cfg ex_www = Ok ex_www_abs /\ canon ex_cfg ex_www_abs = Ok ex_www_abs /\
+  exists s', r_put ex_cfg (mkRst [] false) ex_www ex_a = Ok s'.
+Proof.
+  split; [intros a; apply node_wf_nil|]. split; [reflexivity|]. split; [reflexivity|]. eexists. reflexivity.
+Qed.
